@@ -1,4 +1,5 @@
 import SodModel.Codec
+import Std.Data.String.ToInt
 /-!
   Facts about the decimal-literal reader of the schema codec (`Sod.Codec.decIsKey`), the part of the
   correspondence oracle that decides whether the number text in schema.json denotes the double whose
@@ -539,5 +540,66 @@ theorem decIsKey_functional' (d : Dec) (k k' : Int)
     · exact decIsKey_functional d k k' hk hk' h h'
     · rw [decIsKey_nonfinite d k' (Nat.le_of_not_lt hk')] at h'; exact absurd h' (by simp)
   · rw [decIsKey_nonfinite d k (Nat.le_of_not_lt hk)] at h; exact absurd h (by simp)
+
+open Sod Sod.Json
+
+
+/-- a JSON value in an index entry stands for at most one float -/
+theorem valueIs_f64_functional (j : J) (k k' : Int)
+    (h : valueIs j (.f64 k) = true) (h' : valueIs j (.f64 k') = true) : k = k' := by
+  match j, h, h' with
+  | .num l, h, h' =>
+    simp only [valueIs] at h h'
+    split at h
+    · rename_i d hd
+      rw [hd] at h'
+      exact decIsKey_functional' d k k' h h'
+    · exact absurd h (by simp)
+  | .null, h, _ | .bool _, h, _ | .str _, h, _ | .arr _, h, _ | .obj _, h, _ => exact absurd h (by simp [valueIs])
+
+/-- … and for at most one string -/
+theorem valueIs_str_functional (j : J) (s s' : Bytes)
+    (h : valueIs j (.str s) = true) (h' : valueIs j (.str s') = true) : s = s' := by
+  match j, h, h' with
+  | .str b, h, h' =>
+    simp only [valueIs, beq_iff_eq] at h h'
+    rw [← h, ← h']
+  | .null, h, _ | .bool _, h, _ | .num _, h, _ | .arr _, h, _ | .obj _, h, _ => exact absurd h (by simp [valueIs])
+
+/-- a JSON string never stands for a number and a JSON number never for a string -/
+theorem valueIs_kind (j : J) (v : Val) (h : valueIs j v = true) :
+    (∃ b, j = .str b ∧ ∃ s, v = .str s) ∨ (∃ l, j = .num l ∧ ∀ s, v ≠ .str s) := by
+  cases j <;> cases v <;> simp_all [valueIs]
+
+
+theorem valueIs_i64_functional (j : J) (x y : Int)
+    (h : valueIs j (.i64 x) = true) (h' : valueIs j (.i64 y) = true) : x = y := by
+  match j, h, h' with
+  | .num l, h, h' =>
+    simp only [valueIs, beq_iff_eq] at h h'
+    exact Int.repr_injective (h.symm.trans h')
+  | .null, h, _ | .bool _, h, _ | .str _, h, _ | .arr _, h, _ | .obj _, h, _ => exact absurd h (by simp [valueIs])
+
+theorem valueIs_u64_functional (j : J) (x y : Nat)
+    (h : valueIs j (.u64 x) = true) (h' : valueIs j (.u64 y) = true) : x = y := by
+  match j, h, h' with
+  | .num l, h, h' =>
+    simp only [valueIs, beq_iff_eq] at h h'
+    exact Nat.repr_injective (h.symm.trans h')
+  | .null, h, _ | .bool _, h, _ | .str _, h, _ | .arr _, h, _ | .obj _, h, _ => exact absurd h (by simp [valueIs])
+
+/-- THE ENTRY COMPARISON IS EXACT: within one cast (the index's type), a JSON value of schema.json
+    stands for at most one model value -/
+theorem valueIs_functional (j : J) (v w : Val) (ht : v.tag = w.tag)
+    (h : valueIs j v = true) (h' : valueIs j w = true) : v = w := by
+  match v, w, ht, h, h' with
+  | .i64 _, .i64 _, _, h, h' => exact congrArg _ (valueIs_i64_functional j _ _ h h')
+  | .u64 _, .u64 _, _, h, h' => exact congrArg _ (valueIs_u64_functional j _ _ h h')
+  | .f64 _, .f64 _, _, h, h' => exact congrArg _ (valueIs_f64_functional j _ _ h h')
+  | .str _, .str _, _, h, h' => exact congrArg _ (valueIs_str_functional j _ _ h h')
+  | .i64 _, .u64 _, ht, _, _ | .i64 _, .f64 _, ht, _, _ | .i64 _, .str _, ht, _, _
+  | .u64 _, .i64 _, ht, _, _ | .u64 _, .f64 _, ht, _, _ | .u64 _, .str _, ht, _, _
+  | .f64 _, .i64 _, ht, _, _ | .f64 _, .u64 _, ht, _, _ | .f64 _, .str _, ht, _, _
+  | .str _, .i64 _, ht, _, _ | .str _, .u64 _, ht, _, _ | .str _, .f64 _, ht, _, _ => exact absurd ht (by intro hh; cases hh)
 
 end Sod.Codec
